@@ -235,10 +235,20 @@ where
     S: SendOps + 'static,
     R: RecvOps + 'static,
 {
+    run_stream_ops_from(tc, ops, h, 0, 0)
+}
+
+/// `recv_off0` / `sent_off0`: body bytes already received / sent on this stream (a stream split after some I/O)
+pub fn run_stream_ops_from<W, S, R>(tc: TaskCtx, ops: Vec<Value>, h: Handle<W, S, R>, recv_off0: u64, sent_off0: u64) -> Pin<Box<dyn Future<Output = ()>>>
+where
+    W: RecvOps + SendOps + Splittable<S = S, R = R> + 'static,
+    S: SendOps + 'static,
+    R: RecvOps + 'static,
+{
     Box::pin(async move {
         let mut h = h;
-        let mut recv_off = 0u64;
-        let mut sent_off = 0u64;
+        let mut recv_off = recv_off0;
+        let mut sent_off = sent_off0;
         macro_rules! on_recv {
             ($x:ident, $body:expr, $none:expr) => {
                 match &mut h {
@@ -414,8 +424,8 @@ where
                         let sops = op["send"].as_array().cloned().unwrap_or_default();
                         let rops = op["recv"].as_array().cloned().unwrap_or_default();
                         tc.ret("split", json!({"k": "ok"}));
-                        tc.spawn(&tcs, run_stream_ops::<W, S, R>(tcs.clone(), sops, Handle::Send(s)));
-                        tc.spawn(&tcr, run_stream_ops::<W, S, R>(tcr.clone(), rops, Handle::Recv(r)));
+                        tc.spawn(&tcs, run_stream_ops_from::<W, S, R>(tcs.clone(), sops, Handle::Send(s), recv_off, sent_off));
+                        tc.spawn(&tcr, run_stream_ops_from::<W, S, R>(tcr.clone(), rops, Handle::Recv(r), recv_off, sent_off));
                     } else {
                         unsupported(&tc, "split");
                     }
